@@ -29,10 +29,16 @@ namespace awkward {
 
     vm_func_name_ = std::string(*form_key_).append("-").append(attribute_);
 
+    // one call takes one whole item of this node, i.e. 'size' items of the content
+    // (a RecordArray or UnionArray above calls it once per record)
     vm_func_.append(content_.get()->vm_func())
       .append(": ").append(vm_func_name()).append("\n")
-      .append(content_.get()->vm_func_name()).append("\n")
-      .append(";").append("\n");
+      .append(content_.get()->vm_func_name()).append("\n");
+    for (int64_t i = 1;  i < form_.get()->size();  i++) {
+      vm_func_.append("pause").append("\n")
+        .append(content_.get()->vm_func_name()).append("\n");
+    }
+    vm_func_.append(";").append("\n");
 
     vm_error_.append(content_.get()->vm_error());
     // what the content has to put into its buffers before the first item (the
